@@ -22,12 +22,14 @@ def draw_system(rng, seed: int, prop: str, *, families=("single",) * 6 + ("cross
     lazy = spec.dask_ok and spec.name != "SparsePCA" and rng.random() < lazy_prob
     # dask-backed data fitted *eagerly* (compute=True): fit itself then issues a dozen scheduler calls, which is
     # where a task failure can interrupt a fit half-way (C14's fit_fault operation)
-    dask_eager = spec.dask_ok and spec.name != "SparsePCA" and not lazy and rng.random() < dask_eager_prob
+    dask_eager = spec.dask_ok and spec.name != "SparsePCA" and not lazy and rng.random() < (dask_eager_prob * (1.6 if name == "EOF" else 1.0))
     cfg: dict = {"property": prop, "seed": seed, "spec": name, "lazy": lazy, "dask_eager": dask_eager}
     lay = dict(max_features=12, complex_=spec.complex_input, allow_nan=not (lazy or dask_eager),
                allow_mi=not (lazy or dask_eager) or rng.random() < 0.3)
     if spec.time_ordered:
         lay["allow_nan"] = False
+    if dask_eager and name == "EOF":
+        lay["min_samples"] = 24       # enough samples for the bootstrapper (whose fit can then be interrupted too)
     # "wide" runs (15 %): more features than n_modes + 10, i.e. outside the regime in which the randomised
     # solvers are exact whatever their seed - the only regime in which the *handling of seeds* (forwarding,
     # re-use across fits, ambient RNG) can show. Same backend on both sides, so no solver tolerance is needed.
@@ -236,7 +238,7 @@ def draw_system(rng, seed: int, prop: str, *, families=("single",) * 6 + ("cross
     # ... and a resample of few samples is rank-deficient around the requested mode count: its trailing modes are
     # then decided by the inner (unseeded) solver's random sketch, so the bootstrapper needs enough samples
     enough = name == "EOF" and all(gen.n_samples_total(descs[k]) >= 4 * int(params["n_modes"]) + 4 for k in ("D0", "D1", "D2"))
-    cfg["boot_params"] = {"n_bootstraps": rng.randint(2, 4), "seed": rng.randrange(1000)} if name == "EOF" and not lazy and not dask_eager and not wide and enough else None
+    cfg["boot_params"] = {"n_bootstraps": rng.randint(2, 4), "seed": rng.randrange(1000)} if name == "EOF" and not lazy and not wide and enough else None
     cfg["sched"] = sched.Config(W=rng.choice([1, 1, 2, 3, 4, 8]), reexec=rng.choice([0, 0, 0.05, 0.15]),
                                 transient=rng.choice([0, 0, 0.05]), stall=rng.choice([0, 0.1]),
                                 purity=1.0).to_json()
